@@ -39,4 +39,19 @@ def register (fixed : Bool) (g : Graph) : Nat → Str → U → U
         let u1 := registerDeps (register fixed g fuel) n.imports u
         (p, tbl) :: u1
 
+/-- `for i := range pkgs { register(pkgs[i]) }` over the roots `packages.Load` returned, in that order.
+    `guardRoots = false`: pinned — every root is registered, a second time if an earlier root already
+    brought it in as a dependency (go/packages lists roots in dependency order only inside one chunk
+    of patterns); `true`: repaired — a root that is already registered is left alone. -/
+def loadRoots (guardRoots fixed : Bool) (g : Graph) (fuel : Nat) : List Str → U → U
+  | [], u => u
+  | r :: rs, u =>
+    loadRoots guardRoots fixed g fuel rs
+      (if guardRoots && (u.lookup r).isSome then u else register fixed g fuel r u)
+
+/-- the registered packages in registration order, newest first.  A package registered twice appears
+    twice: the second registration creates a new `Package` object, which the import tables built
+    before do not point to (`Imports()[p] ≠ Universe.Package(p)`). -/
+def keys (u : U) : List Str := u.map (·.1)
+
 end Gengo.Register
